@@ -58,6 +58,7 @@ func init() {
 		Level: "exploration",
 		Rule: "real s3.Leaser instances over one in-memory object store with S3 conditional-request semantics; every GetObject/PutObject/DeleteObject blocks until the scheduler grants it. " +
 			"EXHAUSTIVE sub-space: 2 instances x every program of 1..k operations over {acquire, renew, release} (k=3 in both tiers; programs are canonicalised by dropping renew/release issued while no lease handle is held, which make no request) x TTL class {live for the whole run (+1h), expired at birth (-1h)} per instance x EVERY request-level interleaving (depth-first over the set of instances blocked at a request). " +
+			"Near-expiry pairs: a holder with a TTL of 0.8-2.5 s and an immediate acquire by another instance, judged on recorded values (the holder's ExpiresAt vs a clock reading taken after the competing acquire returned; pairs where the clock had passed ExpiresAt are not evaluable). " +
 			"Added: seeded random schedules of 3 instances with programs of up to 4 operations, and free-running (unscheduled) histories checked by porcupine against a sequential lease specification, all in the -race build. " +
 			"Online oracle after every granted request: instances whose last successful acquire/renew (live class) was not followed by their own release or a failed renew must still own the object in the store (ETag) and number <= 1; a taken-over instance's renew/release must fail with ErrLeaseNotHeld (release: or ErrLeaseAlreadyReleased when the object is gone); each successful acquire's generation must exceed that of the previous different owner. " +
 			"One evaluation = one invariant evaluation after a granted request, one taken-over/generation decision, or one porcupine verdict. " +
@@ -95,6 +96,14 @@ func cases(run *vf.Run) ([]json.RawMessage, error) {
 	}
 	for i := 0; i < p.freeCases; i++ {
 		out = append(out, vf.Spec(spec{Kind: "free", Seed: vf.SubSeed(run.Seed, "C20-free", i), N: p.freePer, Clients: p.randClients, MaxOps: p.randOps}))
+	}
+	// near-expiry pairs (see near.go): 2 cases x 12 pairs in quick, 8 x 40 in thorough
+	nn, per := 2, 12
+	if run.Tier == "thorough" {
+		nn, per = 8, 40
+	}
+	for i := 0; i < nn; i++ {
+		out = append(out, vf.Spec(spec{Kind: "near", Seed: vf.SubSeed(run.Seed, "C20-near", i), N: per}))
 	}
 	return out, nil
 }
@@ -243,6 +252,12 @@ func runCase(run *vf.Run, raw json.RawMessage, dir string) *vf.Result {
 		res.Count("exh_configs", configs)
 		col.finish(run, fmt.Sprintf("exh-%s-%d", s.First.Prog, s.First.TTL))
 		res.Sample = map[string]any{"kind": "exh", "client0": s.First, "client1": "every canonical program x TTL class", "configs": configs, "schedules": col.schedules, "example": col.sample}
+	case "near":
+		runNear(s.Seed, s.N, res)
+		res.Sig = fmt.Sprintf("near-%d", s.Seed)
+		res.Nontrivial = res.Counters["near_expiry_pairs_evaluated"] >= 3
+		res.Sample = map[string]any{"kind": "near-expiry", "pairs": s.N}
+		return res
 	case "rand":
 		rng := rand.New(rand.NewSource(s.Seed))
 		for k := 0; k < s.N; k++ {
